@@ -168,3 +168,187 @@ Corollary F_mix_axis G fs n r v0 :
   F_mix (graph_of_build (defs_of_axis A add G fs n) r v0) (axis_sem A IX put).
 Proof. apply F_mix_axis_defs with (n := n). apply defs_of_axis_are_axis. Qed.
 End FMixBuilt.
+
+(** ** (2) what the [well_typed] checker guarantees, edge by edge *)
+Section Levels.
+Variable g : list node.
+
+(** the typing rule of node [i] holds in the environment [lv] *)
+Definition node_ok (lv : lenv) (l : level) (nd : node) : Prop :=
+  match n_kind nd with
+  | Indep => n_parents nd = [] /\ l = (match n_sig nd with Pop => LPop | Ind => LInd end)
+  | Linked k => exists pl, gather lv (n_parents nd) = Some pl /\ level_of_kind k pl = Some l
+  end.
+
+Lemma gather_mono (lv lv' : lenv) ps pl : lv_mono lv lv' -> gather lv ps = Some pl -> gather lv' ps = Some pl.
+Proof.
+  intros Hm. revert pl. induction ps as [|p ps IH]; intros pl H; simpl in *; [exact H|].
+  destruct (lv p) as [l|] eqn:E; [|discriminate]. rewrite (Hm _ _ E).
+  destruct (gather lv ps) as [pl'|]; [|discriminate]. now rewrite (IH pl' eq_refl).
+Qed.
+
+Lemma node_ok_mono lv lv' l nd : lv_mono lv lv' -> node_ok lv l nd -> node_ok lv' l nd.
+Proof.
+  unfold node_ok. intros Hm. destruct (n_kind nd); [auto|].
+  intros (pl & G & K). exists pl. split; [eapply gather_mono; eauto | exact K].
+Qed.
+
+Lemma node_level_ok lv i l nd : node_level g lv i = Some l -> nth_error g i = Some nd -> node_ok lv l nd.
+Proof.
+  unfold node_level, node_ok. intros H E. rewrite E in H. destruct (lv i); [discriminate|].
+  destruct (n_kind nd) as [|k].
+  - destruct (n_parents nd); [|discriminate]. injection H as <-. auto.
+  - destruct (gather lv (n_parents nd)) as [pl|]; [|discriminate].
+    destruct (level_of_kind k pl) as [l'|] eqn:K; [|discriminate].
+    destruct (sig_eqb (sig_of_level l') (n_sig nd)); [|discriminate]. injection H as <-. eauto.
+Qed.
+
+Lemma check_order_ok order : forall lv lvF, check_order g order lv = Some lvF ->
+  (forall i l nd, lv i = Some l -> nth_error g i = Some nd -> node_ok lvF l nd) ->
+  (forall i l nd, lvF i = Some l -> nth_error g i = Some nd -> node_ok lvF l nd).
+Proof.
+  induction order as [|i r IH]; simpl; intros lv lvF H Hok.
+  - injection H as <-. exact Hok.
+  - destruct (node_level g lv i) as [l|] eqn:N; [|discriminate].
+    apply (IH _ _ H). intros j l' nd Hj E.
+    destruct (Nat.eq_dec j i) as [->|Hne].
+    + rewrite upd_same in Hj. injection Hj as <-.
+      apply node_ok_mono with (lv := lv); [|eapply node_level_ok; eauto].
+      intros a la Ha. apply (check_order_mono g r _ _ H). rewrite upd_other; [exact Ha|].
+      intros ->. apply node_level_fresh in N. congruence.
+    + rewrite upd_other in Hj by exact Hne. eapply Hok; eauto.
+Qed.
+End Levels.
+
+Lemma well_typed_node_ok G : well_typed G = true ->
+  exists lv, levels G = Some lv /\
+    (forall i, i < length (g_nodes G) -> exists l, lv i = Some l) /\
+    (forall i l nd, lv i = Some l -> nth_error (g_nodes G) i = Some nd ->
+       sig_of_level l = n_sig nd /\ node_ok lv l nd).
+Proof.
+  intros W. destruct (well_typed_levels G W) as (lv & EL & Cov & Sig). exists lv. split; [exact EL|]. split; [exact Cov|].
+  intros i l nd Hl E. split; [eapply Sig; eauto|].
+  unfold levels in EL. eapply (check_order_ok (g_nodes G) (g_order G) _ lv EL); eauto. intros ? ? ? H. discriminate H.
+Qed.
+
+Lemma gather_in {X} (e : nat -> option X) ps xs p : gather e ps = Some xs -> In p ps -> exists x, e p = Some x /\ In x xs.
+Proof.
+  revert xs. induction ps as [|q ps IH]; intros xs H Hp; simpl in *; [contradiction|].
+  destruct (e q) as [x|] eqn:E; [|discriminate]. destruct (gather e ps) as [xs'|]; [|discriminate]. injection H as <-.
+  destruct Hp as [->|Hp]; [exists x; split; [exact E | now left]|].
+  destruct (IH xs' eq_refl Hp) as (x' & E' & I'). exists x'. split; [exact E' | now right].
+Qed.
+
+Lemma kind_pop_parents k pl : level_of_kind k pl = Some LPop -> forall l, In l pl -> l = LPop.
+Proof.
+  intros H l Hl. destruct k; simpl in H.
+  - destruct (existsb is_ind pl && forallb ind_or_pop pl); discriminate.
+  - destruct (forallb (fun l0 => negb (is_ind l0)) pl); [|discriminate].
+    destruct (forallb is_pop pl) eqn:E; [|discriminate]. rewrite forallb_forall in E. specialize (E l Hl). now destruct l.
+  - destruct pl as [|[] [|[] [|]]]; discriminate.
+  - destruct (existsb is_ind pl && forallb ind_or_pop pl); discriminate.
+  - destruct (existsb is_ind pl && forallb ind_or_pop pl); discriminate.
+  - destruct (forallb (fun l0 => negb (is_ind l0)) pl); [|discriminate].
+    destruct (forallb is_pop pl) eqn:E; [|discriminate]. rewrite forallb_forall in E. specialize (E l Hl). now destruct l.
+Qed.
+
+(** ** the closure condition of the partial-revert theorems, from [well_typed] *)
+Section Closed.
+Variable A : Type.
+Variable add : A -> A -> A.
+Variable G : AxisTypes.graph.
+Variable fs : nat -> nodefun A.
+Variable n : nat.
+Variable r : DagModel.dag.
+Variable v0 : aval A.
+Hypothesis W : well_typed G = true.
+
+Notation defs := (defs_of_axis A add G fs n).
+Notation dg := (dag_of_defs (defs_of_axis A add G fs n)).
+Notation gS := (graph_of_build (defs_of_axis A add G fs n) r v0).
+Notation N := (length (g_nodes G)).
+
+Hypothesis Hb : DagModel.build dg = DagModel.Ok r.
+
+Lemma def_nth x : x < N -> nth x defs d_default = def_of_node A add fs n x (nth x (g_nodes G) node0).
+Proof. intros H. apply nth_error_nth. now apply defs_of_axis_nth. Qed.
+
+Lemma node_nth x : x < N -> nth_error (g_nodes G) x = Some (nth x (g_nodes G) node0).
+Proof. intros H. now apply nth_error_nth'. Qed.
+
+(** an edge of the dependency graph handed to the constructor is a parameter of a linked node *)
+Lemma edge_axis p c : DagModel.edge dg p c ->
+  c < N /\ exists k, n_kind (nth c (g_nodes G) node0) = Linked k /\ In p (n_parents (nth c (g_nodes G) node0)).
+Proof.
+  unfold DagModel.edge. rewrite dag_parents. intros H.
+  destruct (Nat.lt_ge_cases c N) as [Hc|Hc].
+  - split; [exact Hc|]. rewrite (def_nth c Hc) in H. unfold def_of_node in H.
+    destruct (n_kind (nth c (g_nodes G) node0)) as [|k]; [destruct H|]. exists k. split; [reflexivity | exact H].
+  - rewrite nth_overflow in H by (now rewrite defs_of_axis_length). destruct H.
+Qed.
+
+Lemma axis_flag k : k < N ->
+  ind_axis gS k = sig_is_ind (n_sig (nth (nth k (DagModel.order r) 0) (g_nodes G) node0)).
+Proof.
+  intros Hk. change (ind_axis gS k) with (d_axis (nth (nth k (DagModel.order r) 0) defs d_default)).
+  assert (Hx : nth k (DagModel.order r) 0 < N).
+  { rewrite <- (defs_of_axis_length A add G fs n). apply (nm_lt _ _ r Hb). now rewrite defs_of_axis_length. }
+  rewrite (def_nth _ Hx). unfold def_of_node. now destruct (n_kind _).
+Qed.
+
+Theorem well_typed_axis_closed : forall i q, i < N -> q < N ->
+  ind_axis gS i = true -> ind_axis gS q = true -> axis_read_ok gS i q.
+Proof.
+  intros i q Hi Hq Ai Aq a Ha Hd.
+  destruct (well_typed_node_ok G W) as (lv & _ & Cov & Ok).
+  assert (LEN : length defs = N) by apply defs_of_axis_length.
+  assert (Hi' : i < length defs) by (now rewrite LEN). assert (Hq' : q < length defs) by (now rewrite LEN).
+  (* the level of a node whose declared signature is Ind *)
+  assert (IndLevel : forall x, x < N -> sig_is_ind (n_sig (nth x (g_nodes G) node0)) = true -> lv x = Some LInd).
+  { intros x Hx Sx. destruct (Cov x Hx) as [l Hl]. destruct (Ok x l _ Hl (node_nth x Hx)) as [Sg _].
+    destruct (n_sig (nth x (g_nodes G) node0)); [discriminate|]. destruct l; simpl in Sg; congruence. }
+  (* one edge *)
+  assert (Edge : forall x y, DagModel.edge dg x y -> exists lx ly k pl,
+            lv x = Some lx /\ lv y = Some ly /\ In lx pl /\ level_of_kind k pl = Some ly).
+  { intros x y E. destruct (edge_axis x y E) as (Hy & k & Kd & Hin).
+    destruct (Cov y Hy) as [ly Hly]. destruct (Ok y ly _ Hly (node_nth y Hy)) as [_ NO].
+    unfold node_ok in NO. rewrite Kd in NO. destruct NO as (pl & Gt & Lk).
+    destruct (gather_in lv _ pl x Gt Hin) as (lx & Hlx & Ilx). exists lx, ly, k, pl. auto. }
+  (* below a non-population node nothing is a pure population value *)
+  assert (Down : forall x y, DagModel.reach dg x y -> forall lx, lv x = Some lx -> lx <> LPop ->
+            exists ly, lv y = Some ly /\ ly <> LPop).
+  { unfold DagModel.reach. induction 1 as [x y E | x y z _ IH1 _ IH2]; intros lx Hlx Nx.
+    - destruct (Edge x y E) as (lx' & ly & k & pl & H1 & H2 & H3 & H4). exists ly. split; [exact H2|].
+      intros ->. rewrite Hlx in H1. injection H1 as <-. apply Nx. eapply kind_pop_parents; eauto.
+    - destruct (IH1 lx Hlx Nx) as (ly & Hly & Ny). eapply IH2; eauto. }
+  (* above a node that is not an aggregate nothing is an aggregate *)
+  assert (Up : forall x y, DagModel.reach dg x y -> forall ly, lv y = Some ly -> ly <> LAgg ->
+            exists lx, lv x = Some lx /\ lx <> LAgg).
+  { unfold DagModel.reach. induction 1 as [x y E | x y z _ IH1 _ IH2]; intros lz Hlz Nz.
+    - destruct (Edge x y E) as (lx & ly & k & pl & H1 & H2 & H3 & H4). exists lx. split; [exact H1|].
+      intros ->. rewrite Hlz in H2. injection H2 as <-. apply Nz. eapply kind_parents_agg; eauto.
+    - destruct (IH2 lz Hlz Nz) as (ly & Hly & Ny). eapply IH1; eauto. }
+  (* the node [a], by name *)
+  apply (desc_iff _ defs r v0 Hb i a Hi') in Hd as (y & Ry & ->).
+  destruct (reach_lt _ defs r Hb _ _ Ry) as [_ Hy]. assert (HyN : y < N) by (now rewrite <- LEN).
+  set (xi := nth i (DagModel.order r) 0) in *. set (xq := nth q (DagModel.order r) 0) in *.
+  assert (Hxi : xi < N) by (rewrite <- LEN; apply (nm_lt _ defs r Hb i Hi')).
+  assert (Hxq : xq < N) by (rewrite <- LEN; apply (nm_lt _ defs r Hb q Hq')).
+  rewrite (axis_flag i Hi) in Ai. rewrite (axis_flag q Hq) in Aq. fold xi in Ai. fold xq in Aq.
+  destruct (Down xi y Ry LInd (IndLevel xi Hxi Ai)) as (ly & Hly & NotPop); [discriminate|].
+  assert (NotAgg : ly <> LAgg).
+  { apply in_app_or in Ha. destruct Ha as [Ha|[Ha|[]]].
+    - apply (anc_iff _ defs r v0 Hb q _ Hq') in Ha as (y' & Ry' & Ey).
+      assert (y = y') as <-.
+      { apply (pos_inj _ defs r Hb); [exact Hy | apply (reach_lt _ defs r Hb _ _ Ry') | exact Ey]. }
+      destruct (Up y xq Ry' LInd (IndLevel xq Hxq Aq)) as (ly' & Hly' & NA); [discriminate|]. congruence.
+    - assert (y = xq) as ->.
+      { apply (pos_inj _ defs r Hb); [exact Hy | now rewrite LEN|]. unfold xq. now rewrite (pos_nm _ defs r Hb q Hq'). }
+      rewrite (IndLevel xq Hxq Aq) in Hly. injection Hly as <-. discriminate. }
+  assert (ly = LInd) as -> by (destruct ly; congruence).
+  destruct (nm_pos _ defs r Hb y Hy) as [Hp Ey].
+  rewrite axis_flag by (now rewrite <- LEN). rewrite Ey.
+  destruct (Ok y LInd _ Hly (node_nth y HyN)) as [Sg _]. simpl in Sg. now rewrite <- Sg.
+Qed.
+
+End Closed.
